@@ -132,6 +132,8 @@ func buildC09State(e *rig.Env, variant int) *c09State {
 type c09Op struct {
 	name  string
 	class string // unit | pull | stream
+	// stride > 0: after the first ten fault positions only every stride-th is tried
+	stride int
 	// prep runs fault-free right after the state was built
 	prep func(st *c09State)
 	run  func(ctx context.Context, st *c09State) error
@@ -164,6 +166,17 @@ func c09Ops() []c09Op {
 			req := &pubsubpb.PublishRequest{Topic: c9T}
 			for i := 0; i < 5; i++ {
 				req.Messages = append(req.Messages, &pubsubpb.PubsubMessage{Data: []byte(fmt.Sprintf(`{"b":%d}`, i)), Attributes: map[string]string{"a": fmt.Sprint(i)}, OrderingKey: []string{"k", "", "k2"}[i%3]})
+			}
+			_, err := st.e.Pub.Publish(ctx, req)
+			return err
+		}},
+		// more messages than any internal batch size a server is likely to use (the
+		// API allows 1000 per request): one request, one transaction. Fault positions
+		// are sampled (every 7th after the first ten), the request has hundreds
+		{name: "publish-batch-130", class: "unit", stride: 7, run: func(ctx context.Context, st *c09State) error {
+			req := &pubsubpb.PublishRequest{Topic: c9T}
+			for i := 0; i < 130; i++ {
+				req.Messages = append(req.Messages, &pubsubpb.PubsubMessage{Data: []byte(fmt.Sprintf(`{"big":%d}`, i)), Attributes: map[string]string{"a": fmt.Sprint(i % 3)}})
 			}
 			_, err := st.e.Pub.Publish(ctx, req)
 			return err
@@ -487,7 +500,13 @@ func TestC09(t *testing.T) {
 							c()
 						}
 					}()
-					for k := 1; k < 400; k++ {
+					for k := 1; k < 1200; k++ {
+						if op.stride > 0 && k > 10 && k%op.stride != 0 {
+							continue
+						}
+						if op.stride == 0 && k >= 400 {
+							break
+						}
 						obs := watch(dump0)
 						commits := 0
 						var lastCommit rig.Dump
